@@ -40,6 +40,40 @@ PyObject *PyModule_Create(struct PyModuleDef *);
 '''
 
 
+def _single_assign(block):
+    """(lhs node, rhs node) when block is `X = E;` / `{ X = E; }` with X a plain variable, else None."""
+    b = block
+    if b.get('kind') == 'CompoundStmt':
+        inner = [x for x in b.get('inner', []) if x.get('kind') != 'NullStmt']
+        if len(inner) != 1:
+            return None
+        b = inner[0]
+    if b.get('kind') == 'BinaryOperator' and b.get('opcode') == '=' and strip(b['inner'][0]).get('kind') == 'DeclRefExpr':
+        return b['inner'][0], b['inner'][1]
+    return None
+
+
+def _merge_branch_assigns(n):
+    """`if(c) x = A; else x = B;`  ->  `x = c ? A : B;`  (the statement spelling of the conditional expression)."""
+    if not isinstance(n, dict):
+        return n
+    if n.get('inner'):
+        n = dict(n)
+        n['inner'] = [_merge_branch_assigns(c) for c in n['inner']]
+    if n.get('kind') == 'IfStmt' and len(n['inner']) == 3:
+        a, b = _single_assign(n['inner'][1]), _single_assign(n['inner'][2])
+        if a and b and strip(a[0])['referencedDecl'].get('name') == strip(b[0])['referencedDecl'].get('name'):
+            cond = dict(kind='ConditionalOperator', inner=[n['inner'][0], a[1], b[1]])
+            if 'type' in a[1]:
+                cond['type'] = a[1]['type']
+            out = dict(kind='BinaryOperator', opcode='=', inner=[a[0], cond])
+            for k in ('range', 'loc', 'type'):
+                if k in n:
+                    out[k] = n[k]
+            return out
+    return n
+
+
 def strip(n):
     while isinstance(n, dict) and n.get('kind') in PASS and n.get('inner'):
         n = n['inner'][-1]
@@ -193,7 +227,7 @@ class CFunc:
         self.params = [(p.get('name', ''), p['type']['qualType']) for p in node.get('inner', [])
                        if p.get('kind') == 'ParmVarDecl']
         self.ret = node['type']['qualType'].split('(')[0].strip()
-        self.body = [c for c in node['inner'] if c.get('kind') == 'CompoundStmt'][0]
+        self.body = _merge_branch_assigns([c for c in node['inner'] if c.get('kind') == 'CompoundStmt'][0])
         self.line = line_of(node, 0)
         self.locals = {}      # name -> (type, init node, line)
         self.allocs = []      # dict(var, fn(malloc/realloc/calloc), count, elem, line, node, loops, guards)
